@@ -9,15 +9,35 @@ from harness.core import Outcome, f2b, b2f
 
 ID = "C06"
 LEAN_TARGETS = ["BeyondVerif.Props.C06"]
-THEOREMS = ["BeyondVerif.C06." + t for t in [
-    "trees_orders_gammas", "euler_order1", "rk4_order4", "rkf54_b_order5", "rkf54_bstar_order4", "dopri54_b_order5", "dopri54_bstar_order4",
-    "butcher_cases", "tableaux_wellformed", "row_sums", "dopri_fsal_row",
-    "accel_newton", "accel_central", "accel_energy",
-    "fixed_step_single", "adaptive_accepts_within_tol", "accepted_at_once",
-    "quadrature_exact_euler", "quadrature_exact_rk4", "quadrature_exact_rkf54", "quadrature_exact_dopri54",
-    "linear_test_euler", "linear_test_rk4", "linear_test_order5",
-    "step_scale_law", "step_scale_shrinks", "step_scale_shrinks_backward",
-]]
+THEOREMS = [
+    "BeyondVerif.C06.trees_orders_gammas",
+    "BeyondVerif.C06.euler_order1",
+    "BeyondVerif.C06.rk4_order4",
+    "BeyondVerif.C06.rkf54_b_order5",
+    "BeyondVerif.C06.rkf54_bstar_order4",
+    "BeyondVerif.C06.dopri54_b_order5",
+    "BeyondVerif.C06.dopri54_bstar_order4",
+    "BeyondVerif.C06.butcher_cases",
+    "BeyondVerif.C06.tableaux_wellformed",
+    "BeyondVerif.C06.row_sums",
+    "BeyondVerif.C06.dopri_fsal_row",
+    "BeyondVerif.C06.accel_newton",
+    "BeyondVerif.C06.accel_central",
+    "BeyondVerif.C06.accel_energy",
+    "BeyondVerif.C06.fixed_step_single",
+    "BeyondVerif.C06.adaptive_accepts_within_tol",
+    "BeyondVerif.C06.accepted_at_once",
+    "BeyondVerif.C06.quadrature_exact_euler",
+    "BeyondVerif.C06.quadrature_exact_rk4",
+    "BeyondVerif.C06.quadrature_exact_rkf54",
+    "BeyondVerif.C06.quadrature_exact_dopri54",
+    "BeyondVerif.C06.linear_test_euler",
+    "BeyondVerif.C06.linear_test_rk4",
+    "BeyondVerif.C06.linear_test_order5",
+    "BeyondVerif.C06.step_scale_law",
+    "BeyondVerif.C06.step_scale_shrinks",
+    "BeyondVerif.C06.step_scale_shrinks_backward",
+]
 LEVEL_TEXT = ("Lean theorems over R about the four Butcher tableaux, the per-body attraction, the step-size update and MAX_ITER translated from "
               "keplernum.py on every run: all rooted-tree order conditions (Euler 1; RK4 all 8 up to order 4; RKF54 and DOPRI54 all 17 up to order 5 for "
               "the propagated weights, all 8 up to order 4 for the embedded weights), row sums and shape for every integrator, FSAL row; the modelled "
@@ -47,7 +67,8 @@ ASSUMPTIONS = [
 ]
 NOT_COVERED = [
     "global convergence of the real propagator at order p, energy / angular-momentum drift bounds, adaptive error per step and over a span: oracle only "
-    "(observed order by step halving, error bounds scaled by (n_p h)^p resp. tol, one-step local error <= 2 tol)",
+    "(observed order by step halving read off the pair (h/2, h/4): >= 3.5 for RK4, >= 0.7 for Euler — one-sided, because over whole numbers of "
+    "revolutions the h^4 term nearly cancels and RK4 shows 4.9; error bounds scaled by (n_p h)^p resp. tol; one-step local error <= 2 tol)",
     "resampling accuracy (Ephem Lagrange-8 over float MJD): oracle only. The 'few millimetres' of the property hold for n_p*h <= 0.05; the floor is "
     "6 ulp(MJD) x speed (up to 15 mm observed at perigee speed, edge interval) and the Lagrange remainder reaches decimetres to metres for the coarsest "
     "steps in low eccentric orbits (observed 7 m at h = 120 s, e = 0.6, perigee 200 km), tolerance 5 rp (n_p h)^8 there",
